@@ -2293,8 +2293,9 @@ func (err *SchemaError) Error() string {
 			panic(err)
 		}
 		buf.WriteString("\nValue:\n  ")
-		if err := encoder.Encode(err.Value); err != nil {
-			panic(err)
+		if encErr := encoder.Encode(err.Value); encErr != nil {
+			// a value that has no JSON form (a YAML mapping with a key that is not a string)
+			fmt.Fprintf(buf, "%v\n", err.Value)
 		}
 	}
 
